@@ -234,10 +234,14 @@ func Yield(site string) {
 	if t == nil {
 		if goid() != s.schedGoid {
 			s.mu.Lock()
-			if !s.free {
+			dead := s.free
+			if !dead {
 				s.unknown++
 			}
 			s.mu.Unlock()
+			if dead {
+				select {} // the run was aborted: nothing runs any more
+			}
 		}
 		return
 	}
@@ -250,8 +254,10 @@ func Yield(site string) {
 func (s *Sched) park(t *Task, site string) {
 	s.mu.Lock()
 	if s.free {
+		// the run was aborted (stall, step limit, budget, panic): whoever reaches a
+		// yield point stops here for good, so that an endless loop ends too
 		s.mu.Unlock()
-		return
+		select {}
 	}
 	t.site = site
 	s.parked = append(s.parked, t)
@@ -330,13 +336,8 @@ func Go(f func()) {
 	}
 	s.mu.Lock()
 	if s.free {
-		// abort mode: nobody schedules any more, but a panic must still not
-		// take the process down
+		// aborted run: no new tasks
 		s.mu.Unlock()
-		go func() {
-			defer func() { recover() }()
-			f()
-		}()
 		return
 	}
 	t := &Task{ID: s.nextID, wake: make(chan struct{})}
@@ -392,12 +393,8 @@ func (s *Sched) abort(why Outcome, detail string) {
 		s.detail = detail
 	}
 	s.free = true
-	ps := s.parked
-	s.parked = nil
+	s.parked = nil // parked tasks stay parked for ever
 	s.mu.Unlock()
-	for _, p := range ps {
-		close(p.wake)
-	}
 }
 
 // Run executes main as task 0 under the scheduler. It must be called inside a
@@ -479,8 +476,6 @@ func Run(cfg Config, main func()) Result {
 		s.mu.Unlock()
 		if over {
 			s.abort(StepLimit, fmt.Sprintf("more than %d scheduling steps", cfg.MaxSteps))
-			// the chosen task was removed from parked before abort: release it too
-			close(t.wake)
 			continue
 		}
 		t.wake <- struct{}{}
